@@ -861,7 +861,8 @@ class AtomsCollection:
             raise ValueError("Invalid load_format passed to load_tree")
 
         structures = []
-        for d in dirlist:
+        loaded = []  # Positions in dirlist of the members that could be read
+        for d_i, d in enumerate(dirlist):
             try:
                 if is_ext:
                     with utils.silence_stdio(
@@ -873,6 +874,7 @@ class AtomsCollection:
                 elif is_func:
                     s = load_format(os.path.join(path, d), **opt_args)
                 structures.append(s)
+                loaded.append(d_i)
             except Exception as e:
                 warnings.warn(str(e))
 
@@ -913,7 +915,8 @@ class AtomsCollection:
         if safety_check >= 2:
             arrays = coll["arrays"]
             for k, a in arrays.items():
-                loaded_coll.set_array(k, a)
+                # Keep the rows of the members that could be read
+                loaded_coll.set_array(k, np.array(a)[loaded])
 
         return loaded_coll
 
